@@ -477,4 +477,60 @@ example : UWF (unitsOf C03.exDoc) ∧ ((unitsKids (unitsOf C03.exDoc)).filter is
   constructor <;> decide
 example : ∀ b ∈ exBodies, BodyOk b := by decide
 
+/-! ### `remove_paragraph` deletes no comment line outside the removed paragraph (audit_C05 W2)
+
+`C05_frame_remove` lets the child behind the removed paragraph go "if it is an EMPTY_LINE node" —
+by the model that could be a comment-line node. Under the separator invariant it never is. -/
+
+/-- in a document with separated paragraphs, `remove_paragraph(i)` removes the i-th PARAGRAPH child
+    and, if a child follows it, exactly the blank-line node `EMPTY_LINE[NEWLINE "\n"]` behind it;
+    every other child — every comment line outside the removed paragraph — stays -/
+theorem C05_remove_keeps_comments (d : Doc) (hs : Separated d.kids) (i : Nat) :
+    match convertIndex d.kids i with
+    | none => (removeParagraph d i).kids = d.kids
+    | some p =>
+      (d.kids[p + 1]? = none ∧ (removeParagraph d i).kids = d.kids.take p)
+      ∨ (d.kids[p + 1]? = some emptyLine
+          ∧ (removeParagraph d i).kids = d.kids.take p ++ d.kids.drop (p + 2)) := by
+  have hf := C05_frame_remove d i
+  cases hc : convertIndex d.kids i with
+  | none => rw [hc] at hf; exact hf
+  | some p =>
+    rw [hc] at hf
+    simp only at hf ⊢
+    obtain ⟨q, c, h1, h2, h3⟩ := convertIndexAux_para _ _ _ _ hc
+    simp only [Nat.zero_add] at h1; subst h1
+    cases hn : d.kids[p + 1]? with
+    | none =>
+      left
+      refine ⟨rfl, ?_⟩
+      rw [hf, hn]
+      have : d.kids.length ≤ p + 1 := List.getElem?_eq_none_iff.mp hn
+      simp [List.drop_eq_nil_of_le this]
+    | some n =>
+      right
+      have := separated_next _ hs p c n h2 hn h3
+      subst this
+      refine ⟨rfl, ?_⟩
+      rw [hf, hn]
+      rfl
+
+/-- along histories from a parsed well-formed document: at every point `remove_paragraph` deletes
+    the paragraph and at most the blank line behind it -/
+theorem C05_remove_keeps_comments_history (d0 : DocS) (hwf : d0.WF) (d : Doc)
+    (hd : d.kids = d0.tree.children) (ops : List EditOp) (hv : ∀ o ∈ ops, EditOp.ValidE o) (i : Nat) :
+    match convertIndex (run d ops).kids i with
+    | none => (removeParagraph (run d ops) i).kids = (run d ops).kids
+    | some p =>
+      ((run d ops).kids[p + 1]? = none ∧ (removeParagraph (run d ops) i).kids = (run d ops).kids.take p)
+      ∨ ((run d ops).kids[p + 1]? = some emptyLine
+          ∧ (removeParagraph (run d ops) i).kids =
+              (run d ops).kids.take p ++ (run d ops).kids.drop (p + 2)) :=
+  C05_remove_keeps_comments _ (C05_paragraphs_separated_history d0 hwf d hd ops hv) i
+
+/-- non-vacuity: the example document of C03 has a comment line directly behind a blank line behind
+    its first paragraph; its children are separated -/
+example : Separated (unitsKids (unitsOf C03.exDoc)) :=
+  C05_paragraphs_separated _ (by decide)
+
 end Deb822Verif.Props.C04More
